@@ -10,6 +10,8 @@ package peers
 //@ ensures [copy-dom] result != nil && (forall id uint64 :: (id in result) <==> (id in peersAll(self)))
 //@ ensures [copy-val] forall id uint64 :: id in result ==> result[id] != nil && result[id].Name == peersAll(self)[id].Name && result[id].ID == peersAll(self)[id].ID && result[id].Port == peersAll(self)[id].Port
 //@ iface Service.Suitable(self, threshold)
+//@ requires [some] threshold >= 1
 //@ ensures result1 == nil ==> len(result0) >= threshold
+//@ ensures [entries] result1 == nil ==> (forall i int :: 0 <= i && i < len(result0) ==> result0[i] != nil)
 
 //@ spec peersAll(p any) map[uint64]*core.Endpoint
